@@ -75,6 +75,25 @@ CHECKS = {
               'end-to-end price series at the hook for construction years {1,2,3,14}; ITC/grant/fee/relief arithmetic as exact relations between run pairs.'),
         design_ref='DESIGN.md section 4 C16',
         note='PTC added in the unit typed; PTC duration > lifetime is a rejected input on the pinned tree.'),
+    'C13': dict(
+        engine='poolx+ilvx',
+        technique='stateless model checking of the real code: exhaustive enumeration of all task-to-worker assignments (set partitions) under a fork-faithful controlled process pool, plus preemption-bounded exhaustive interleaving exploration of the real pylocker append protocol under a controlled scheduler',
+        category='exploration',
+        text=('Every assignment of K iterations to <=W forked workers is executed with the real main()/work_package (distinctness, support, '
+              'call conformance, row count); every interleaving of two real Locker-guarded appends up to 3 preemptions (sleeps are free '
+              'switches) is executed on real files with os._exit semantics at worker exit. Coverage statement for the stated bounds.'),
+        design_ref='DESIGN.md sections 3.4, 3.5, 4 C13',
+        note=('Independence decided through checkable consequences, not statistics. Append atomicity of a single write(2) assumed. '
+              'Worker exit modelled as os._exit (confirmed with real processes in demos/).')),
+    'C14': dict(
+        engine='poolx+ilvx',
+        technique='fault enumeration on the real code: all 2^K subsets of failing iterations x all task-to-worker assignments under the controlled pool with scripted samples, every row re-simulated; preemption-bounded exhaustive interleavings of concurrent appends',
+        category='fault_enumeration',
+        text=('All fail subsets x all assignments for three bases x three output lists; each surviving row replayed through the real client and '
+              'compared token by token in header order; statistics and JSON recomputed from the rows; interleavings as C13 with rows of '
+              'different lengths.'),
+        design_ref='DESIGN.md sections 3.4, 3.5, 4 C14',
+        note='Scripted samples replace numpy draws inside the Monte-Carlo module only; open known findings listed in known_findings.json.'),
 }
 
 
@@ -90,7 +109,7 @@ def manifest():
             'thorough_cmd': f'bin/check {pid} --tier thorough',
             'evidence_file': f'/verif/evidence/{pid}.json',
             'replay_cmd_template': f'bin/check {pid} --replay {{path}}',
-            'engine': c['engine'],
+            'engine': c['engine'].split('+')[0],
             'technique': c['technique'],
             'level_claimed': {'category': c['category'], 'text': c['text'], 'design_ref': c['design_ref']},
             'level_note': c['note'],
@@ -105,10 +124,14 @@ def manifest():
             'enable': 'checks export GEOPHIRES_X_VERIF=1 (bin/check) and import /repo/src directly; no build step',
             'baseline_off_cmd': BASELINE,
             'source_commits': ['b900803'],
-            'fix_commits': ['83ef652'],
+            'fix_commits': ['83ef652', '14ba6d3', '02fd4ac'],
             'add_only': True,
         },
         'engines': [
+            {'name': 'poolx', 'path': 'vf/engines/poolx.py', 'serves_properties': ['C13', 'C14'],
+             'kind_free_text': 'fork-faithful controlled replacement of ProcessPoolExecutor; enumerates all set partitions of tasks over workers (and all fail subsets) on the real Monte-Carlo main()'},
+            {'name': 'ilvx', 'path': 'vf/engines/ilvx.py', 'serves_properties': ['C13', 'C14'],
+             'kind_free_text': 'preemption-bounded DFS over thread interleavings of the real pylocker append path; scheduling points at the file-system/clock operations pylocker performs (proxies bound into the pylocker.Locker module object), polling made visible, virtual clock'},
             {'name': 'xplore', 'path': 'vf/core/e1.py', 'serves_properties': [p for p in ALL if p in CHECKS and CHECKS[p]['engine'] == 'xplore'],
              'kind_free_text': 'deviation-bounded exhaustive enumeration of input configurations; every execution is a complete run of the real pipeline in a child forked from a pristine image; monitors run on the live model at the hook'},
         ],
